@@ -457,57 +457,23 @@ theorem evStep1_obs {k : Nat} {c : Hp.St} {cuts : Cuts} {e : Ev} {pc : Pc} {c' :
       · cases hr
         exact ⟨fun o' ho => by simp [obsOfPc, obsOfTask] at ho, .inl rfl⟩
   · next cold ov S ht =>
-    rw [plainR_ok, guard_ok] at h
-    obtain ⟨⟨_, h⟩, _⟩ := h
     split at h
-    · rw [guard_ok] at h
-      obtain ⟨_, h⟩ := h; cases h
-      exact ⟨fun o' ho => by simp [obsOfPc, obsOfTask] at ho, .inl rfl⟩
-    · rw [guard_ok] at h
-      obtain ⟨_, h⟩ := h; cases h
+    · rw [plainR_ok, guard_ok] at h
+      obtain ⟨⟨_, h⟩, _⟩ := h; cases h
       exact ⟨fun o ho => ho, .inl rfl⟩
-  · next cold ov cell todo taken S ht =>
-    split at h
     · rw [plainR_ok, guard_ok] at h
-      obtain ⟨⟨_, h⟩, _⟩ := h; cases h
-      exact ⟨fun o' ho => by simp [obsOfPc, obsOfTask] at ho, .inl rfl⟩
-    · rw [plainR_ok, guard_ok] at h
-      obtain ⟨⟨_, h⟩, _⟩ := h; cases h
-      exact ⟨fun o' ho => by simp [obsOfPc, obsOfTask] at ho, .inl rfl⟩
-  · next cold ov cell todo taken S ht =>
-    split at h
-    · rw [plainR_ok] at h
-      obtain ⟨h, _⟩ := h
-      rcases fetchAdd_cases h with ⟨⟨ic, f, hr⟩, hfl, hfk⟩ | ⟨hr, hfok, hfl, hfo, hfr, hfk⟩
-      · cases hr; exact ⟨fun o ho => ho, .inl rfl⟩
-      · cases hr
+      obtain ⟨⟨_, h⟩, _⟩ := h
+      split at h
+      · rw [guard_ok] at h
+        obtain ⟨_, h⟩ := h; cases h
         exact ⟨fun o' ho => by simp [obsOfPc, obsOfTask] at ho, .inl rfl⟩
-    · rw [plainR_ok] at h
-      obtain ⟨h, _⟩ := h
-      rcases casLoop_c0 h with ⟨_, h2, h3⟩ | h1
-      · simp only at h2 h3
-        exact ⟨fun o' ho => by simpa [obsOfPc, h3] using ho, .inl (by rw [h2])⟩
-      · cases h1
-        exact ⟨fun o' ho => by simp [obsOfPc, obsOfTask] at ho, .inl rfl⟩
+      · rw [guard_ok] at h
+        obtain ⟨_, h⟩ := h; cases h
+        exact ⟨fun o ho => ho, .inl rfl⟩
   · next cold ov todo taken S ht =>
-    rw [plainR_ok] at h
-    obtain ⟨h, _⟩ := h
-    rcases fetchAdd_cases h with ⟨⟨ic, f, hr⟩, hfl, hfk⟩ | ⟨hr, hfok, hfl, hfo, hfr, hfk⟩
-    · cases hr; exact ⟨fun o ho => ho, .inl rfl⟩
-    · cases hr
-      exact ⟨fun o' ho => by simp [obsOfPc, obsOfTask] at ho, .inl rfl⟩
-  · next cold ov todo taken S ht =>
-    split at h
-    · cases h
-    · cases h
-      exact ⟨fun o' ho => by simp [obsOfPc] at ho, .inl rfl⟩
-  · cases h
-
-/-- skipping a no-op `addHot` concerns collectors only: the observation a call carries is unchanged -/
-theorem obsOfPc_skipPc (k : Nat) (e : Ev) (pc : Pc) : obsOfPc (skipPc k e pc) = obsOfPc pc := by
-  rcases skipTask_cases k (parseLoc e.loc) pc.task with hs | ⟨cold, ov, cell, todo, taken, S, ht, hs, _⟩
-  · rw [skipPc_of_task_eq hs]
-  · simp only [obsOfPc, skipPc, hs]; simp [ht, obsOfTask]
+    obtain ⟨_, hcl, ⟨⟨todo', taken', ht'⟩, _⟩ | ⟨_, ht', _⟩⟩ := colStep_cases ht h
+    · exact ⟨fun o' ho => by simp [obsOfPc, ht', obsOfTask] at ho, .inl hcl⟩
+    · exact ⟨fun o' ho => by simp [obsOfPc, ht'] at ho, .inl hcl⟩
 
 /-- an accepted event never changes the observation its call carries, and it leaves `claimed` as
     it was or appends exactly the observation the call carries -/
@@ -516,10 +482,7 @@ theorem evStep_obs {k : Nat} {c : Hp.St} {cuts : Cuts} {e : Ev} {pc : Pc} {c' : 
     (h : evStep k c cuts e pc = .ok ((c', pc', rv), cuts')) :
     (∀ o, obsOfPc pc' = some o → obsOfPc pc = some o) ∧
     (c'.claimed = c.claimed ∨ ∃ o, obsOfPc pc = some o ∧ c'.claimed = c.claimed ++ [o]) := by
-  unfold evStep at h
-  have h1 := evStep1_obs h
-  rw [obsOfPc_skipPc] at h1
-  exact h1
+  exact evStep1_obs h
 
 theorem planObs_obs {k : Nat} {n : String} {o : Obs} {pc : Pc} (h : planObs k n o = .ok (some pc)) :
     obsOfPc pc = some o := by
